@@ -205,7 +205,8 @@ def layoutStatic : (fuel : Nat) → Ctx → Dop → Nat → List PVal → (pos :
   | 0, _, _, _, _, _ => none
   | _+1, _, _, _, [], pos => some { claims := [], next := pos }
   | fuel+1, c, item, sz, x :: rest, pos =>
-    (layoutDop fuel { c with lastInPdu := c.lastInPdu && rest.isEmpty } item x pos 0).bind fun o =>
+    -- an item of a static field is followed by padding up to ITEM-BYTE-SIZE: it is never the last object of the PDU
+    (layoutDop fuel { c with lastInPdu := false } item x pos 0).bind fun o =>
       if o.next - pos > sz then none
       else (layoutStatic fuel c item sz rest (pos + sz)).map fun r =>
         { claims := o.claims ++ zeroClaims o.next (pos + sz - o.next) ++ r.claims, next := r.next }
